@@ -202,6 +202,13 @@ func (x *c08) consensusAccepts(m *mcontract, justCommitted bool) error {
 	if basis != cs.Index {
 		return fmt.Errorf("%w: contractor basis %v != tip %v", errInfra, basis, cs.Index)
 	}
+	if fce.V2FileContract.RevisionNumber == m.Rev.RevisionNumber {
+		// the latest revision itself has been confirmed
+		if !reflect.DeepEqual(nosig(fce.V2FileContract), nosig(m.Rev)) {
+			return fmt.Errorf("the confirmed revision %d of %v differs from the host's latest revision of the same number", m.Rev.RevisionNumber, m.ID)
+		}
+		return nil
+	}
 	txn := types.V2Transaction{FileContractRevisions: []types.V2FileContractRevision{{Parent: fce, Revision: m.Rev}}}
 	if err := consensus.ValidateV2Transaction(consensus.NewMidState(cs), txn); err != nil {
 		return fmt.Errorf("the host's latest revision %d of %v is not acceptable to consensus as a revision of the on-chain contract: %v", m.Rev.RevisionNumber, m.ID, err)
@@ -1262,6 +1269,47 @@ func (x *c08) step(op C08Op) error {
 			return err
 		}
 		return x.staleBattery(m)
+	case "confirm":
+		// broadcast and mine one of the doubly-signed revisions the host has
+		// committed so far - usually an OLDER one while newer ones exist. The
+		// chain then holds that revision; the host's latest revision, roots and
+		// balances must stay what they were and later RPCs must build on the
+		// latest, not on the confirmed one.
+		m := x.live(op.C)
+		if x.nonRevisable(m) || len(m.Chain) < 2 {
+			x.cs.Class("confirm-skipped")
+			return nil
+		}
+		k := 1 + mod(op.Len, len(m.Chain)-1)
+		rev := m.Chain[k]
+		basis, fce, err := x.H.Contractor.V2FileContractElement(m.ID)
+		if err != nil {
+			return fmt.Errorf("contract element of %v unavailable: %v", m.ID, err)
+		}
+		if rev.RevisionNumber <= fce.V2FileContract.RevisionNumber {
+			x.cs.Class("confirm-skipped")
+			return nil
+		}
+		txn := types.V2Transaction{FileContractRevisions: []types.V2FileContractRevision{{Parent: fce, Revision: rev}}}
+		if _, err := x.H.CM.AddV2PoolTransactions(basis, []types.V2Transaction{txn}); err != nil {
+			return fmt.Errorf("a revision the host committed (%d of %v) is not accepted by the pool: %v", rev.RevisionNumber, m.ID, err)
+		}
+		if err := x.H.Mine(types.VoidAddress, 1); err != nil {
+			return err
+		}
+		if k < len(m.Chain)-1 {
+			x.cs.Class("confirmed-older-revision")
+		} else {
+			x.cs.Class("confirmed-latest-revision")
+		}
+		what := fmt.Sprintf("revision %d of %d committed ones confirmed on chain", rev.RevisionNumber, len(m.Chain)-1)
+		if err := x.after(what, nil, nil); err != nil {
+			return err
+		}
+		if resp, err := x.R.LatestRevision(m.ID); err != nil || !reflect.DeepEqual(resp.Contract, m.Rev) {
+			return fmt.Errorf("%s: RPCLatestRevision no longer returns the latest committed revision %d (err %v): %s", what, m.Rev.RevisionNumber, err, revDiff(m.Rev, resp.Contract))
+		}
+		return x.consensusAccepts(m, false)
 	case "latest":
 		return x.latest(op)
 	case "renew", "refresh-full", "refresh-partial":
@@ -1316,7 +1364,7 @@ func runC08(c C08Case, cs *kit.CaseStats) error {
 
 func genC08Op(t *rapid.T, nc int, allowRace bool) C08Op {
 	op := C08Op{C: rapid.IntRange(0, nc-1).Draw(t, "c")}
-	k := rapid.IntRange(0, 34).Draw(t, "op")
+	k := rapid.IntRange(0, 37).Draw(t, "op")
 	switch {
 	case k < 6:
 		op.Op = "fund"
@@ -1359,10 +1407,17 @@ func genC08Op(t *rapid.T, nc int, allowRace bool) C08Op {
 	case k < 30:
 		op.Op = "mine"
 		op.Len = rapid.IntRange(0, 1).Draw(t, "refetch")
-		if rapid.IntRange(0, 2).Draw(t, "past") == 0 {
+		if rapid.IntRange(0, 2).Draw(t, "confirm") == 0 {
+			op.Op = "confirm"
+			op.Len = rapid.IntRange(0, 7).Draw(t, "which")
+		} else if rapid.IntRange(0, 2).Draw(t, "past") == 0 {
 			op.Op = "minepast"
 			op.Len = rapid.SampledFrom([]int{0, 0, 0, 1}).Draw(t, "expire")
 		}
+	case k >= 35:
+		op.Op = "confirm"
+		op.Len = rapid.IntRange(0, 7).Draw(t, "which")
+		return op
 	case k >= 32:
 		if !allowRace {
 			op.Op = "latest"
@@ -1408,7 +1463,7 @@ func genC08Op(t *rapid.T, nc int, allowRace bool) C08Op {
 		var chain *C08Op
 		for i := 0; i < n; i++ {
 			p := genC08Op(t, nc, false)
-			for p.Op == "latest" || p.Op == "mine" || p.Op == "minepast" || p.Op == "renew" || p.Op == "refresh-full" || p.Op == "refresh-partial" {
+			for p.Op == "latest" || p.Op == "mine" || p.Op == "minepast" || p.Op == "confirm" || p.Op == "renew" || p.Op == "refresh-full" || p.Op == "refresh-partial" {
 				p = C08Op{Op: "fund", Dep: []int{rapid.IntRange(0, 2).Draw(t, "racct"), rapid.IntRange(0, 3).Draw(t, "ramt")}}
 			}
 			p.Corrupt, p.Race = "", chain
@@ -1456,7 +1511,7 @@ func genC08(t *rapid.T) C08Case {
 
 var c08Prop = kit.Prop[C08Case]{
 	ID:   "C08",
-	Rule: "sequences (2..20, thorough 2..40) of fund, replenish accounts/pools, append, free, sector-roots, latest-revision, renew, refresh (full/partial), mine, 2-3-way races of honest RPCs and forced interleavings (a second RPC on the same contract issued exactly while the host waits for the second renter message of a renew, refresh, append, free or replenish) on 1-2 contracts against the real rhp4.Server, every revising RPC kind re-issued against a contract after it was renewed / refreshed or after the chain was mined past its proof height (must be refused, nothing signed or persisted), each RPC honest or with exactly one corruption (challenge: garbage / zero / other key / number -1 / +1 / replayed; renter signature: garbage / zero / other key / over another amount, root or number / replayed; replayed request; price table signed by another key / expired / altered; request for another contract; out-of-range indices, offsets, lengths; zero, missing or overflowing deposits and targets; renewal parameters out of bounds; renewal funded with inputs whose signatures are invalid or that are double-spent through the pool), the rest of the exchange carried on honestly. Oracle over the recorded Contractor calls: every committed revision equals core's ReviseFor*/Renew*/Refresh* applied by the harness to the previous revision and the arguments it sent, is doubly signed, monotone and value conserving; corrupted or underivable requests change nothing and trigger no mutating call; the latest revision validates under core as a revision of the on-chain element. Non-trivial = >= 2 committed revisions and >= 1 rejected corrupted/replayed request in one sequence; distinct by hash of the case.",
+	Rule: "sequences (2..20, thorough 2..40) of fund, replenish accounts/pools, append, free, sector-roots, latest-revision, renew, refresh (full/partial), mine, broadcasting and mining an older doubly-signed revision while newer ones exist, 2-3-way races of honest RPCs and forced interleavings (a second RPC on the same contract issued exactly while the host waits for the second renter message of a renew, refresh, append, free or replenish) on 1-2 contracts against the real rhp4.Server, every revising RPC kind re-issued against a contract after it was renewed / refreshed or after the chain was mined past its proof height (must be refused, nothing signed or persisted), each RPC honest or with exactly one corruption (challenge: garbage / zero / other key / number -1 / +1 / replayed; renter signature: garbage / zero / other key / over another amount, root or number / replayed; replayed request; price table signed by another key / expired / altered; request for another contract; out-of-range indices, offsets, lengths; zero, missing or overflowing deposits and targets; renewal parameters out of bounds; renewal funded with inputs whose signatures are invalid or that are double-spent through the pool), the rest of the exchange carried on honestly. Oracle over the recorded Contractor calls: every committed revision equals core's ReviseFor*/Renew*/Refresh* applied by the harness to the previous revision and the arguments it sent, is doubly signed, monotone and value conserving; corrupted or underivable requests change nothing and trigger no mutating call; the latest revision validates under core as a revision of the on-chain element. Non-trivial = >= 2 committed revisions and >= 1 rejected corrupted/replayed request in one sequence; distinct by hash of the case.",
 	Assumptions: []string{
 		"host = rhp4.Server over the repository's reference EphemeralContractor (which itself re-checks signatures and revision numbers) on the all-v2 test network, in-memory transport",
 		"expired price tables are produced by signing a table with a past ValidUntil with the host key (the harness holds it); no sleeping",
